@@ -84,7 +84,7 @@ def behaviour_specs(draw, modes=("3D", "PE", "PS"), need_state=True, reducible=F
             kin = [[pick(draw, [0.01, 0.05, 0.2]), pick(draw, [0.0, 50.0, 300.0, 1000.0])] for _ in range(nk)]
         if rates and pick(draw, [0, 0, 0, 1, 1]):
             rate = dict(kind=pick(draw, ["norton", "perzyna"]), a=pick(draw, [1e-4, 1e-2, 1.0, 100.0]),
-                        n=pick(draw, [0.5, 1.0, 1.0, 2.0, 4.0]), s0=pick(draw, [1.0, 0.3]))  # s0 x sy
+                        n=pick(draw, [1.0, 0.5, 2.0, 4.0, 8.0, 1.0]), s0=pick(draw, [1.0, 0.3]))  # s0 x sy
     if branches_ok and not reducible:
         nb = pick(draw, [0, 0, 0, 1, 2]) if (y is not None or not need_state) else pick(draw, [1, 2])
         gs = [pick(draw, [0.1, 0.2, 0.3, 0.4]) for _ in range(nb)]
@@ -187,12 +187,24 @@ def class_label(spec):
             f"branches:{len(spec['branches'])}", f"elastic:{spec['elastic']['kind']}", f"solver:{spec['solver']}"]
 
 
-def sig_of(spec):
+def local_solver(spec, solver=None):
+    """which local solver Behavior dispatches to (documented rule: quadratic surface, homogeneous C,
+    no kinematic hardening, no branch, solver != 'newton' -> spectral return)."""
+    if spec["yield"] is None:
+        return "viscoelastic" if spec["branches"] else "elastic"
+    if ((solver or spec["solver"]) != "newton" and spec["yield"]["kind"] in ("vm", "hill")
+            and spec["elastic"]["kind"] != "hetero" and not spec["kin"] and not spec["branches"]):
+        return "spectral"
+    return "newton"
+
+
+def sig_of(spec, solver=None):
     """signature (class) of a behaviour for known-finding matching."""
+    r = spec["rate"]
     return dict(mode=spec["mode"], surface=spec["yield"]["kind"] if spec["yield"] else "none",
                 hard=spec["hard"]["kind"] if spec["hard"] else "none", nkin=len(spec["kin"]),
-                rate=spec["rate"]["kind"] if spec["rate"] else "none", nbranch=len(spec["branches"]),
-                solver=spec["solver"])
+                rate=r["kind"] if r else "none", rate_n="none" if not r else "gt1" if r["n"] > 1 else "le1",
+                nbranch=len(spec["branches"]), local=local_solver(spec, solver))
 
 
 # ------------------------------------------------------------------------------------------
